@@ -217,7 +217,7 @@ func c19Handshake(sh c19Shape, stall int, ctx context.Context, onStall func()) *
 		out.err = E.AppErr
 	}
 	out.returned = !r.Timeout
-	out.closed = E.End.CloseN > 0
+	out.closed = E.ClosedByEndpoint
 	out.ops = E.End.Ops
 	if sh.resumed && out.err == nil && !E.Resumed {
 		out.err = fmt.Errorf("harness: expected a resumption")
